@@ -64,9 +64,14 @@ def v2Key (p : Str) (sfx : Str → Str) (k : Str) : Str :=
   let suffix := if k.length > 63 then sfx k else []
   pre p ++ (safeKey k).take (63 - suffix.length) ++ suffix
 
-/-- `make_keys` after marking: `[v2] + list(set([v1]) - set([v2]))`. -/
+/-- `v1_fits = len(f'{self.prefix}/') + len(self.make_suffix('')) < 63` (since e916847): the V1
+    scheme counts the prefix into the 63 characters; with a prefix of 55+ characters there is no
+    room left for the key, and no V1 key is generated at all. -/
+def v1Fits (p : Str) (sfx : Str → Str) : Bool := decide ((pre p).length + (sfx []).length < 63)
+
+/-- `make_keys` after marking: `[v2] + list(set([v1] if self.v1 and v1_fits else []) - set([v2]))`. -/
 def makeKeys (p : Str) (v1 : Bool) (sfx : Str → Str) (k : Str) : List Str :=
-  if v1 && v1Key p sfx k != v2Key p sfx k then [v2Key p sfx k, v1Key p sfx k] else [v2Key p sfx k]
+  if v1 && v1Fits p sfx && v1Key p sfx k != v2Key p sfx k then [v2Key p sfx k, v1Key p sfx k] else [v2Key p sfx k]
 
 def ofDRS : Str := "-ofDRS".toList
 
